@@ -44,7 +44,7 @@ def cells(tier, seed):
 def explore_opts(params, tier):
     # cat_rows builds its inverse root with stable_pinverse, which adds a 1e-6 jitter when |R_ii| < 1e-6: on that branch the exact
     # identity is off by design, below the replay tolerance -> such counterexamples are inconclusive, not engine errors
-    return {"timeout_s": 2.0 if tier == "quick" else 60.0, "max_paths": 4, "norm_first": True, "path_budget_s": 90.0, "engine_opts": {"floor_cut": True},
+    return {"timeout_s": 2.0 if tier == "quick" else 10.0, "max_paths": 4, "norm_first": True, "path_budget_s": 90.0, "engine_opts": {"floor_cut": True},
             "on_nonreplay": "inconclusive" if params.get("derive") in ("cat_rows", "cat_rows2") else "error"}
 
 
